@@ -17,8 +17,8 @@ since the enclosing subroutine body was entered (a literal, a non-negated consum
 sequence/alternation of such), or goes to a subroutine of strictly smaller rank (so the unguarded part of
 the call graph is acyclic); predicates must evaluate.  The measure is (text left at body entry, rank),
 lexicographic; call depth `(|text| + 1) * R` is never exhausted.  `guardedB` is a decidable sufficient
-form for predicate-free programs.  PARTIAL: the criterion is conservative (a call guarded only by a
-range, a negated class or another call's consumption is not recognised); named loops are outside
+form for predicate-free programs.  PARTIAL: the criterion is conservative (a call guarded only by
+another call's or a loop's consumption is not recognised); named loops are outside
 `resolveBody`; both are left to the correspondence run, which enumerates nullable nests exhaustively and
 checks the real engine against a step budget.
 -/
